@@ -541,6 +541,20 @@ func r045(c *Ctx) {
 		_, nn := nilKnowledge(cs.instr, sameAs(svc))
 		c.ob(rule, "Router.ServeHTTP/forwards-to-resolved-service", cs.pos(), nn && cs.common().Args[0] == svc, true, "the request must be handed to the service that routing resolved")
 	}
+	// the router's locked wrapper hands the request to ServiceForRequest unchanged and returns its answer
+	okWrap := false
+	for _, cs := range callsTo(sfrq, sfr) {
+		call := cs.instr.(*ssa.Call)
+		if call.Call.Args[1] == ssa.Value(sfrq.Params[1]) && len(dominatingConds(call.Block())) == 0 {
+			okWrap = true
+			for _, ret := range normalReturns(sfrq) {
+				if retVal(ret, 0) != resultOf(call, 0) || retVal(ret, 1) != resultOf(call, 1) {
+					okWrap = false
+				}
+			}
+		}
+	}
+	c.ob(rule, "Router.serviceForRequest/is-ServiceForRequest-under-the-lock", sfrq.Pos(), okWrap, true, "routing must depend only on the request's Host and path as resolved by ServiceMap.ServiceForRequest (not on SNI, remote address, ...)")
 	// ServiceForHost == serviceFor(host, "/")
 	sfh := c.method("ServiceMap", "ServiceForHost")
 	okH := false
